@@ -41,7 +41,7 @@ var quick = map[string]tier{
 }
 
 // runs that are each the only run of a fresh process (quick tier; ten times as many in the thorough tier)
-var coldRuns = map[string]int{"C01": 64, "C08": 64, "C02": 48, "C03": 32, "C06": 32, "C09": 32, "C17": 32}
+var coldRuns = map[string]int{"C01": 96, "C08": 96, "C02": 96, "C03": 96, "C06": 32, "C09": 32, "C17": 32}
 
 const coldIndex0 = 900000000 // run indices of the cold-start runs
 
